@@ -111,6 +111,7 @@ type c31Case struct {
 	Pkts     []c31Pkt
 	Ops      []c31Op
 	Conserve bool    // oracle (3) applies
+	StrictSpan int   // conservation: see c31Required
 	Frames   [][]int // U lists of the frames (conservation)
 	Note     string
 	Plain    bool // delivery is the plain in-order loss-free stream
@@ -256,17 +257,33 @@ func c31GenStream(r *kit.Rand, nFrames int, hostile bool) c31Stream {
 	return st
 }
 
-// c31Required returns the smallest maxLate (and timestamp window) under which precondition (3) holds for this
-// delivery order: over all pushes, newest+1-firstPacketOfOldestIncompleteFrame (0 if every frame up to newest is complete).
-func c31Required(st *c31Stream, order []int) (span int, tsSpan uint32) {
+// c31Required measures a loss-free delivery order against precondition (3). Over all pushes it takes the window
+// newest+1-firstPacketOfOldestIncompleteFrame (and the timestamp distance across that window):
+//   - strict: measured before the just-pushed packet may complete its frame — with maxLate >= strict the number of
+//     buffered, not yet emittable packets never exceeds maxLate, the builder never has to force anything out;
+//   - loose: measured after completed frames are taken out of the window — with loose <= maxLate < strict the only
+//     overflow ever happening is a frame that becomes complete by the very packet that overflows the window.
+func c31Required(st *c31Stream, order []int) (strict, loose int, strictTS, looseTS uint32) {
 	arrived := make([]bool, len(st.pkts))
 	fi := 0 // oldest incomplete frame
 	newest := -1
+	measure := func(span *int, ts *uint32) {
+		if fi < len(st.frames) && st.frames[fi][0] <= newest {
+			f0 := st.frames[fi][0]
+			if s := newest + 1 - f0; s > *span {
+				*span = s
+			}
+			if d := st.pkts[newest].TS - st.pkts[f0].TS; d > *ts {
+				*ts = d
+			}
+		}
+	}
 	for _, u := range order {
-		arrived[u] = true
 		if u > newest {
 			newest = u
 		}
+		measure(&strict, &strictTS)
+		arrived[u] = true
 		for fi < len(st.frames) {
 			all := true
 			for _, x := range st.frames[fi] {
@@ -281,18 +298,10 @@ func c31Required(st *c31Stream, order []int) (span int, tsSpan uint32) {
 			}
 			fi++
 		}
-		if fi < len(st.frames) && st.frames[fi][0] <= newest {
-			f0 := st.frames[fi][0]
-			if s := newest + 1 - f0; s > span {
-				span = s
-			}
-			if d := st.pkts[newest].TS - st.pkts[f0].TS; d > tsSpan {
-				tsSpan = d
-			}
-		}
+		measure(&loose, &looseTS)
 	}
 
-	return span, tsSpan
+	return strict, loose, strictTS, looseTS
 }
 
 func c31Displace(r *kit.Rand, order []int, depth int) {
@@ -310,10 +319,17 @@ func c31Displace(r *kit.Rand, order []int, depth int) {
 	}
 }
 
-func c31AddPops(r *kit.Rand, c *c31Case, pushes []int, allowFlush bool) {
+func c31AddPops(r *kit.Rand, c *c31Case, pushes []int, allowFlush, holdUntilFirst bool) {
 	popMode := r.Intn(5) // 0 never, 1 rare, 2 often, 3 drain after every push, 4 bursts
+	hold := holdUntilFirst // no Pop before the first packet of the stream was pushed
 	for _, pi := range pushes {
 		c.Ops = append(c.Ops, c31Op{'P', pi})
+		if c.Pkts[pi].U == 0 {
+			hold = false
+		}
+		if hold {
+			continue
+		}
 		switch popMode {
 		case 1:
 			if r.Chance(0.15) {
@@ -362,16 +378,21 @@ func c31Gen(r *kit.Rand, idx int) *c31Case {
 		}
 		depth := kit.Pick(r, []int{0, 1, 2, 3, 5, 8, 20})
 		c31Displace(r, order, depth)
-		span, tsSpan := c31Required(&st, order)
-		ml := span + kit.Pick(r, []int{0, 0, 0, 1, 2, 10})
-		if r.Chance(0.3) {
+		strict, loose, strictTS, _ := c31Required(&st, order)
+		sub := kit.Pick(r, []string{"core", "core", "core", "start", "tight"})
+		c.Class = "conserve/" + sub
+		ml := strict + kit.Pick(r, []int{0, 0, 0, 1, 2, 10})
+		if sub == "tight" {
+			ml = loose
+		} else if r.Chance(0.3) {
 			if v := int(kit.Pick(r, c31MaxLates)); v > ml {
 				ml = v
 			}
 		}
 		c.MaxLate = uint16(ml)
-		if r.Chance(0.4) {
-			ms := (int64(tsSpan) + 89) / 90 // smallest window (ms) with window*90 >= tsSpan
+		c.StrictSpan = strict
+		if r.Chance(0.3) {
+			ms := (int64(strictTS) + 89) / 90 // smallest window (ms) with window*90 >= the timestamp span
 			ms += int64(kit.Pick(r, []int{0, 0, 1, 10, 1000}))
 			if ms < 1 {
 				ms = 1
@@ -382,8 +403,8 @@ func c31Gen(r *kit.Rand, idx int) *c31Case {
 		c.Frames = st.frames
 		c.Conserve = true
 		c.Plain = depth == 0
-		c.Note = fmt.Sprintf("depth=%d required_span=%d required_ts_span=%d", depth, span, tsSpan)
-		c31AddPops(r, c, order, false)
+		c.Note = fmt.Sprintf("depth=%d strict_span=%d loose_span=%d ts_span=%d", depth, strict, loose, strictTS)
+		c31AddPops(r, c, order, false, sub != "start")
 	default:
 		hostile := class == 3
 		c.Class = []string{"", "lossy", "dups", "hostile"}[class]
@@ -393,7 +414,7 @@ func c31Gen(r *kit.Rand, idx int) *c31Case {
 		if hostile && r.Chance(0.1) {
 			c.MaxLate = uint16(kit.Pick(r, []int{0, 3, 32767, 65535}))
 		}
-		if r.Chance(0.4) {
+		if r.Chance(0.25) {
 			c.DelayMs = kit.Pick(r, []int{1, 30, 100, 1000, 60000})
 		}
 		loss := kit.Pick(r, []float64{0, 0, 0.01, 0.05, 0.1, 0.2})
@@ -480,18 +501,25 @@ func c31Gen(r *kit.Rand, idx int) *c31Case {
 		}
 		c.Plain = loss == 0 && depth == 0 && nd == 0 && !hostile
 		c.Note = fmt.Sprintf("loss=%.2f depth=%d dups=%d", loss, depth, nd)
-		c31AddPops(r, c, pushes, true)
+		c31AddPops(r, c, pushes, true, false)
 	}
 
 	return c
 }
 
-// c31Scripted are directed op lists (single-packet frames head+marker unless stated), run as cases 0..len-1.
+// c31Scripted are directed op lists, run as cases 0..len-1.
+// Script: space separated; "N" pushes seq N as a single-packet frame (head+marker, own timestamp); "N/flags/T" pushes
+// seq N with flags ⊆ {h,m} ("-" none) and timestamp number T; a trailing ' makes it a duplicate (next copy number);
+// "p" Pop, "a" Pop until nil, "f" Flush. A final flush + pop-until-nil is appended. conserve: oracle (3) applies, frames
+// are the maximal runs of one timestamp number.
 func c31Scripted() []*c31Case {
-	mk := func(note string, maxLate uint16, script string) *c31Case {
-		// script: space separated; "N" push seq N, "N'" push a duplicate of N, "p" pop, "a" pop until nil, "f" flush
-		c := &c31Case{Class: "scripted", MaxLate: maxLate, Note: note}
+	mk := func(note string, maxLate uint16, conserve bool, script string) *c31Case {
+		c := &c31Case{Class: "scripted", MaxLate: maxLate, Note: note, Conserve: conserve}
 		copies := map[int]uint8{}
+		wraps := strings.Contains(script, "6553")
+		base := -1
+		type orig struct{ u, t int }
+		var origs []orig
 		for _, w := range strings.Fields(script) {
 			switch w {
 			case "p":
@@ -501,35 +529,86 @@ func c31Scripted() []*c31Case {
 			case "f":
 				c.Ops = append(c.Ops, c31Op{K: 'F'})
 			default:
+				dup := strings.HasSuffix(w, "'")
+				f := strings.Split(strings.TrimSuffix(w, "'"), "/")
 				var n int
-				_, _ = fmt.Sscanf(strings.TrimSuffix(w, "'"), "%d", &n)
+				_, _ = fmt.Sscanf(f[0], "%d", &n)
 				u := n
-				if strings.Contains(script, "65534") && n < 32768 {
+				if wraps && n < 32768 {
 					u = n + 65536 // the stream wraps
 				}
-				p := c31Pkt{U: u, Seq: uint16(n), TS: uint32(u) * 3000, Head: true, Mark: true, Body: []byte{byte(n)}, Frame: n}
-				if strings.HasSuffix(w, "'") {
+				t, head, mark := u, true, true
+				if len(f) == 3 {
+					head, mark = strings.Contains(f[1], "h"), strings.Contains(f[1], "m")
+					_, _ = fmt.Sscanf(f[2], "%d", &t)
+				}
+				p := c31Pkt{U: u, Seq: uint16(n), TS: uint32(t) * 3000, Head: head, Mark: mark, Body: []byte{byte(n)}, Frame: t}
+				if dup {
 					copies[n]++
 					p.Copy = copies[n]
+				} else {
+					origs = append(origs, orig{u, t})
+				}
+				if base < 0 || u < base {
+					base = u
 				}
 				c.Pkts = append(c.Pkts, p)
 				c.Ops = append(c.Ops, c31Op{'P', len(c.Pkts) - 1})
 			}
 		}
 		c.Ops = append(c.Ops, c31Op{K: 'F'}, c31Op{K: 'a'})
+		if conserve { // the executor indexes Pkts by U for frames: re-base U to 0.. and put originals first, in stream order
+			sort.Slice(origs, func(a, b int) bool { return origs[a].u < origs[b].u })
+			tbl := make([]c31Pkt, 0, len(c.Pkts))
+			remap := map[int]int{}
+			for _, o := range origs {
+				for i, p := range c.Pkts {
+					if p.U == o.u && p.Copy == 0 {
+						remap[i] = len(tbl)
+						p.U -= base
+						tbl = append(tbl, p)
+					}
+				}
+			}
+			for i := range c.Ops {
+				if c.Ops[i].K == 'P' {
+					c.Ops[i].P = remap[c.Ops[i].P]
+				}
+			}
+			c.Pkts = tbl
+			for i, p := range c.Pkts {
+				if i == 0 || c.Pkts[i-1].Frame != p.Frame {
+					c.Frames = append(c.Frames, nil)
+				}
+				c.Frames[len(c.Frames)-1] = append(c.Frames[len(c.Frames)-1], p.U)
+			}
+			st := c31Stream{pkts: c.Pkts, frames: c.Frames}
+			var order []int
+			for _, o := range c.Ops {
+				if o.K == 'P' {
+					order = append(order, c.Pkts[o.P].U)
+				}
+			}
+			c.StrictSpan, _, _, _ = c31Required(&st, order)
+		}
 
 		return c
 	}
 
 	return []*c31Case{
-		mk("duplicate of an emitted packet arrives while the buffer is empty", 10, "10 11 f a 10' 12 13 a"),
-		mk("duplicate of an emitted packet arrives while the buffer is non-empty, after a Pop", 10, "10 11 12 a 10' 13 a"),
-		mk("duplicate of an emitted packet arrives while the buffer is non-empty, no Pop since the buffer refilled", 10, "10 11 f a 12 10' 13 a"),
-		mk("never-seen late packet arrives while the buffer is empty", 10, "10 12 13 f a 11 14 15 a"),
-		mk("never-seen late packet arrives while the buffer is non-empty, after a Pop", 10, "10 12 13 14 a 11 15 a"),
-		mk("duplicate while the original is still buffered", 10, "10 11 11' 12 10' 13 a"),
-		mk("late duplicate across the sequence wrap", 10, "65534 65535 f a 65534' 0 1 a"),
-		mk("in-order stream, pop as you go", 10, "10 a 11 a 12 a 13 a"),
+		mk("duplicate of an emitted packet arrives while the buffer is empty", 10, false, "10 11 f a 10' 12 13 a"),
+		mk("duplicate of an emitted packet arrives while the buffer is non-empty, after a Pop", 10, false, "10 11 12 a 10' 13 a"),
+		mk("duplicate of an emitted packet arrives while the buffer is non-empty, no Pop since the buffer refilled", 10, false, "10 11 f a 12 10' 13 a"),
+		mk("never-seen late packet arrives while the buffer is empty", 10, false, "10 12 13 f a 11 14 15 a"),
+		mk("never-seen late packet arrives while the buffer is non-empty, after a Pop", 10, false, "10 12 13 14 a 11 15 a"),
+		mk("duplicate while the original is still buffered", 10, false, "10 11 11' 12 10' 13 a"),
+		mk("late duplicate across the sequence wrap", 10, false, "65534 65535 f a 65534' 0 1 a"),
+		mk("in-order stream, pop as you go", 10, true, "10 a 11 a 12 a 13 a"),
+		mk("two partition heads in one frame (e.g. two H.264 NAL packets), frame is the newest data at Flush", 10, false, "10/h/1 11/hm/1 f a"),
+		mk("frame without marker on its last packet followed by a single-packet frame with marker", 10, false, "10/h/1 11/hm/2 12 a"),
+		mk("first two packets swapped, Pop between them", 10, true, "11 p 10 12 13 a"),
+		mk("in-order 3-packet frame with maxLate 2, then single-packet frames", 2, true, "10/h/1 11/-/1 12/m/1 13 14 15 a"),
+		mk("in-order 3-packet frames with maxLate 10, Pop only at the end", 10, true, "10/h/1 11/-/1 12/m/1 13/h/2 14/-/2 15/m/2 16/h/3 17/-/3 18/m/3 19 20"),
 	}
 }
 
@@ -630,6 +709,13 @@ func c31Exec(c *c31Case) *c31Result { //nolint:gocognit,cyclop,maintidx
 	}
 	sb := samplebuilder.New(c.MaxLate, c31Depack{}, c31SampleRate, opts...)
 
+	generic := func(sig string) string {
+		if c.MaxLate <= 1 {
+			return sig + ":maxlate<=1"
+		}
+
+		return sig
+	}
 	classify := func(pi int, dupOnly bool) string {
 		s := &states[pi]
 		where := "nonempty"
@@ -642,11 +728,11 @@ func c31Exec(c *c31Case) *c31Result { //nolint:gocognit,cyclop,maintidx
 		case dupOnly && s.isDup:
 			return "duplicate-emitted-twice"
 		case dupOnly:
-			return "packet-in-two-samples"
+			return generic("packet-in-two-samples")
 		case s.lateHorizon:
 			return "late-packet-on-" + where + "-buffer"
 		default:
-			return "out-of-order"
+			return generic("out-of-order")
 		}
 	}
 
@@ -683,7 +769,7 @@ func c31Exec(c *c31Case) *c31Result { //nolint:gocognit,cyclop,maintidx
 		for _, pi := range idxs {
 			lst = append(lst, fmt.Sprintf("%d.%d", states[pi].pkt.Seq, states[pi].pkt.Copy))
 		}
-		if len(res.sampleLists) < 400 {
+		if len(res.sampleLists) < 5000 {
 			res.sampleLists = append(res.sampleLists, lst)
 		}
 		if trace {
@@ -734,7 +820,7 @@ func c31Exec(c *c31Case) *c31Result { //nolint:gocognit,cyclop,maintidx
 				same := prev == pi
 				sig := classify(pi, true)
 				if same {
-					sig = "packet-in-two-samples"
+					sig = generic("packet-in-two-samples")
 					if prevLst := res.lastList; len(lst) < len(prevLst) && strings.Join(prevLst[len(prevLst)-len(lst):], " ") == strings.Join(lst, " ") {
 						sig = "packet-in-two-samples:suffix-of-previous-sample-reemitted"
 					}
@@ -841,7 +927,7 @@ func c31Exec(c *c31Case) *c31Result { //nolint:gocognit,cyclop,maintidx
 			}
 		}
 		res.framesOut = len(got)
-		if res.samples <= 400 {
+		if res.samples <= 5000 {
 			var missing []int
 			for fi := range c.Frames {
 				if got[fi] == 0 {
@@ -849,28 +935,34 @@ func c31Exec(c *c31Case) *c31Result { //nolint:gocognit,cyclop,maintidx
 				}
 			}
 			if len(missing) > 0 {
-				// classify by an observable of the delivery: were all missing frames older than the first packet ever pushed?
-				firstPushedU := -1
+				// classify by features of the delivery (inputs), not by what the builder did:
+				//  - a packet older than everything pushed before the first Pop arrived after that Pop;
+				//  - maxLate is below the strict window (some frame becomes complete by the packet that overflows maxLate).
+				minBefore, sawPop, startReordered := -1, false, false
 				for _, o := range c.Ops {
-					if o.K == 'P' {
-						firstPushedU = c.Pkts[o.P].U
-
-						break
-					}
-				}
-				allBefore := true
-				for _, fi := range missing {
-					if c.Frames[fi][0] >= firstPushedU {
-						allBefore = false
+					switch {
+					case o.K == 'P' && !sawPop:
+						if u := c.Pkts[o.P].U; minBefore < 0 || u < minBefore {
+							minBefore = u
+						}
+					case o.K == 'P':
+						if c.Pkts[o.P].U < minBefore {
+							startReordered = true
+						}
+					case o.K == 'o' || o.K == 'a':
+						sawPop = true
 					}
 				}
 				sig := "complete-frame-not-emitted"
-				if allBefore {
-					sig = "complete-frame-not-emitted:older-than-first-pushed-packet"
+				switch {
+				case startReordered:
+					sig += ":stream-start-reordered-across-first-pop"
+				case int(c.MaxLate) < c.StrictSpan:
+					sig += ":frame-completes-on-maxlate-overflow"
 				}
 				fr := c.Frames[missing[0]]
-				viol(sig, "loss-free stream, %s, maxLate=%d delay=%dms: %d of %d frames never came out after Flush; first missing: frame %d = seq %d..%d (first packet pushed in the case: seq %d)",
-					c.Note, c.MaxLate, c.DelayMs, len(missing), len(c.Frames), missing[0], c.Pkts[fr[0]].Seq, c.Pkts[fr[len(fr)-1]].Seq, c.Pkts[max(firstPushedU, 0)].Seq)
+				viol(sig, "loss-free stream, %s, maxLate=%d delay=%dms: %d of %d frames never came out after Flush; first missing: frame %d = seq %d..%d (lowest seq pushed before the first Pop: %d)",
+					c.Note, c.MaxLate, c.DelayMs, len(missing), len(c.Frames), missing[0], c.Pkts[fr[0]].Seq, c.Pkts[fr[len(fr)-1]].Seq, uint16(int(c.Pkts[0].Seq)+max(minBefore, 0)-c.Pkts[0].U))
 			}
 		}
 	}
@@ -882,14 +974,14 @@ func c31Exec(c *c31Case) *c31Result { //nolint:gocognit,cyclop,maintidx
 
 func TestVerifC31(t *testing.T) {
 	run := kit.Start(t, "C31", "op lists (push/pop/flush) over generated frame streams fed to a real SampleBuilder with a self-describing fake depacketizer: "+
-		"8 scripted witnesses + seeded random streams in 4 classes (conserve: loss-free bounded reorder with maxLate derived from the delivery; lossy; dups; hostile flags/padding/bursts); "+
+		"13 scripted witnesses + seeded random streams in 4 classes (conserve: loss-free bounded reorder with maxLate derived from the delivery, sub-modes core/start/tight; lossy; dups; hostile flags/padding/bursts); "+
 		"a case is non-trivial when at least 3 samples came out and the delivery is not the plain in-order loss-free stream; distinct by the full op list + options")
 	defer run.Finish()
 	run.Assume("streams span < 2^15 sequence numbers, so serial-number order equals the order of the unwrapped stream positions")
 	run.Assume("this SampleBuilder version has no PopWithTimestamp; Sample.PacketTimestamp is compared with the run's timestamp and only counted (not part of the statement)")
 
 	scripted := c31Scripted()
-	n := len(scripted) + kit.N(4000, 120000)
+	n := len(scripted) + kit.N(3000, 100000)
 	var mu sync.Mutex
 	classSeen := map[string]int{}
 
@@ -953,7 +1045,7 @@ func TestVerifC31(t *testing.T) {
 			})
 		}
 	}
-	run.Parallel(n, 8, one)
+	run.Parallel(n, 12, one)
 	if os.Getenv("VERIF_C31_STATS") != "" {
 		keys := make([]string, 0, len(classSeen))
 		for k := range classSeen {
